@@ -958,18 +958,27 @@ def _threads(ctx: Ctx, rng: SimRng) -> None:
         lists = _rebind(ctx, sh, holder, lists)
         st.clear_all_caches()
         sh.fresh_session()
-        base: list[list[str]] = []
-        est = 0
-        for cl in lists:
-            res, steps = count_steps(lambda cl=cl: [fn() for _, fn in cl], dedupe="op")
-            if res[0] != "ok":
-                raise RunAborted(f"baseline raised {res[1]!r}")
-            base.append(res[1])
-            est += steps
+        def sequential() -> tuple[list[list[str]], int]:
+            out: list[list[str]] = []
+            total = 0
+            for cl in lists:
+                res, steps = count_steps(lambda cl=cl: [fn() for _, fn in cl], dedupe="op")
+                if res[0] != "ok":
+                    raise RunAborted(f"baseline raised {res[1]!r}")
+                out.append(res[1])
+                total += steps
+            return out, total
+
+        if ctx.cfg.get("_isolate"):
+            # the sequential truth comes from a process of its own, so that the threads below are the first
+            # callers this process sees: a table or memo a sequential first call would have built is still to build
+            base, est = _in_child(sequential)
+        else:
+            base, est = sequential()
         ctx.log("baseline", n_thr, est)
         # the shared state the threads will race on is cold again
         recold()
-        st.clear_all_caches()
+        st.clear_all_caches(memos=bool(ctx.cfg.get("_isolate")))  # nothing runs yet: hand-rolled memos go back to empty as well
         sh.fresh_session()
         holder["wl"] = _fresh_wordlists()
         from btclib.curves import PreparedPoint  # noqa: PLC0415
@@ -1066,6 +1075,38 @@ def _threads(ctx: Ctx, rng: SimRng) -> None:
         undo()
 
 
+def _in_child(fn: Callable[[], Any]) -> Any:
+    """fn() computed by a forked child; what the child did to its copy of the process dies with it."""
+    import os  # noqa: PLC0415
+    import pickle  # noqa: PLC0415
+
+    rfd, wfd = os.pipe()
+    pid = os.fork()
+    if pid == 0:
+        code = 1
+        try:
+            os.close(rfd)
+            try:
+                payload: Any = ("ok", fn())
+            except RunAborted as e:
+                payload = ("aborted", str(e))
+            with os.fdopen(wfd, "wb") as f:
+                f.write(pickle.dumps(payload))
+            code = 0
+        finally:
+            os._exit(code)
+    os.close(wfd)
+    with os.fdopen(rfd, "rb") as f:
+        data = f.read()
+    os.waitpid(pid, 0)
+    if not data:
+        raise RunAborted("the baseline process died")
+    kind, value = pickle.loads(data)  # noqa: S301
+    if kind != "ok":
+        raise RunAborted(value)
+    return value
+
+
 def _rebind(ctx: Ctx, sh: Shared, holder: dict[str, Any], lists: list[list[tuple[str, Callable[[], str]]]]) -> list[list[tuple[str, Callable[[], str]]]]:
     """Wordlist calls were built with wl=None; rebuild them over the holder."""
     from btclib.mnemonic import mnemonic as mn  # noqa: PLC0415
@@ -1101,7 +1142,9 @@ def _plans(tier: str) -> list[Any]:
         Plan("state", {"part": "signer"}, share=1.0, chunk=40, label="state/signer"),
         Plan("state", {"part": "wallet"}, share=1.5, chunk=20, label="state/wallet"),
         Plan("state", {"part": "indep"}, share=2.0, chunk=10, label="state/indep"),
-        Plan("state", {"part": "threads", "every_line": tier == "thorough"}, share=4.0, chunk=10, label="state/threads"),
+        Plan("state", {"part": "threads", "every_line": tier == "thorough"}, share=2.5, chunk=10, label="state/threads"),
+        # the same, each run in a forked child of a process that never ran anything: cold module state by construction
+        Plan("state", {"part": "threads", "every_line": tier == "thorough", "_isolate": True}, share=2.5, chunk=10, label="state/threads-cold-process"),
     ]
 
 
